@@ -290,7 +290,9 @@ func (r *c17Run) checkList(q *c17List, arg string) {
 	} else if N == 0 {
 		m.inc("args_with_empty_result")
 	}
-	if N > 100 {
+	if N > 100 && q.paged {
+		// an un-paginated request to a PAGED query is answered with the default page of 100; queries without
+		// pagination must answer in full however long the list is
 		m.inc("skipped_over_100")
 		return
 	}
